@@ -35,9 +35,10 @@ pub struct Case {
 fn code_of(len: u8, block: u8, lo: u8) -> (u8, u32) {
     let len = len.clamp(1, 4);
     match len {
-        1 => (1, (lo % 0x40) as u32),
-        2 => (2, ((0x40 + (block % 4) as u32) << 8) | lo as u32),
-        3 => (3, ((0x80 + (block % 2) as u32) << 16) | (((block / 2) % 2) as u32) << 8 | lo as u32),
+        // the integer values of codes of different lengths overlap on purpose (<41> and <000041> are different codes)
+        1 => (1, 0x40 + (lo % 0x40) as u32),
+        2 => (2, ((1 + (block % 3) as u32) << 8) | lo as u32),
+        3 => (3, (((block % 4) as u32) << 8) | lo as u32),
         _ => (4, ((0xC0 + (block % 2) as u32) << 24) | (((block / 2) % 2) as u32) << 8 | lo as u32),
     }
 }
@@ -252,7 +253,7 @@ pub fn render(case: &Case) -> Rendered {
         1 => s.push_str("/CMapName /Adobe-Identity-UCS def\n/CMapType 2 def\n"),
         _ => s.push_str("/CIDSystemInfo << /Registry (Adobe) /Ordering (UCS) /Supplement 0 >> def\n/CMapType 2 def\n"),
     }
-    s.push_str("4 begincodespacerange\n<00> <3F>\n<4000> <43FF>\n<800000> <81FFFF>\n<C0000000> <C1FFFFFF>\nendcodespacerange\n");
+    s.push_str("4 begincodespacerange\n<40> <7F>\n<0100> <03FF>\n<000000> <0003FF>\n<C0000000> <C1FFFFFF>\nendcodespacerange\n");
     if lines.is_empty() {
         // the grammar needs at least one mapping entry per section; an empty map still has the codespace section
     }
@@ -369,7 +370,7 @@ pub fn case_strategy() -> BoxedStrategy<Case> {
 }
 
 pub fn run(run: &mut Run) {
-    run.rule = "cases: a list of 1..9 definitions (bfchar with 1..3 units or a surrogate pair; bfrange with a single target incremented on the last unit; bfrange with an array target) applied in order to a reference table (code length, code) -> UTF-16 target, 'last definition wins'; codes of 1-4 bytes in a prefix-free code space (first byte decides the length), ranges inside one low-byte block, positions drawn from a small pool so that overlaps and adjacencies (equal and different targets) are frequent; rendered as a CMap with random sectioning (<=100 entries), splitting of ranges into sub-ranges/chars, hex case, operand spacing, LF/CR/CRLF, trailing blanks and comment lines, optional Flate, Encoding Identity-H / Identity-V / absent. Oracle: get_font_encoding + Document::decode_text of a string over the mapped codes = UTF-16 decoding of the concatenated reference targets. non-trivial = a multi-unit or array target AND an overlap/adjacency, text of >= 3 codes; distinct by case hash.".into();
+    run.rule = "cases: a list of 1..9 definitions (bfchar with 1..3 units or a surrogate pair; bfrange with a single target incremented on the last unit; bfrange with an array target) applied in order to a reference table (code length, code) -> UTF-16 target, 'last definition wins'; codes of 1-4 bytes in a prefix-free code space (first byte decides the length; the integer values of 1-, 2- and 3-byte codes overlap), ranges inside one low-byte block, positions drawn from a small pool so that overlaps and adjacencies (equal and different targets) are frequent; rendered as a CMap with random sectioning (<=100 entries), splitting of ranges into sub-ranges/chars, hex case, operand spacing, LF/CR/CRLF, trailing blanks and comment lines, optional Flate, Encoding Identity-H / Identity-V / absent. Oracle: get_font_encoding + Document::decode_text of a string over the mapped codes = UTF-16 decoding of the concatenated reference targets. non-trivial = a multi-unit or array target AND an overlap/adjacency, text of >= 3 codes; distinct by case hash.".into();
     run.assumptions = vec![
         "the envelope is the Adobe template the parser documents; other envelopes and unmapped codes are C04's business".into(),
         "targets are valid UTF-16 and incrementing ranges do not leave the class of their last unit".into(),
